@@ -565,4 +565,465 @@ Section GenP.
     - intros jd v Hin. apply qabs_le0_eq. apply H4. exact Hin.
     - apply qabs_le0_eq. exact H5.
   Qed.
+
+  (* ================================================================== *)
+  (* 5. the verified checker                                             *)
+  (* ================================================================== *)
+
+  Lemma in_range_iff k : in_range lo hi k = true <-> lo <= k < hi.
+  Proof. unfold in_range. rewrite andb_true_iff, Nat.leb_le, Nat.ltb_lt. tauto. Qed.
+
+  Lemma admissibleb_iff k jd : admissibleb sp M probs k jd = true <-> admissible k jd.
+  Proof.
+    unfold admissibleb, admissible. destruct (sp k).
+    - rewrite andb_true_iff, !Nat.eqb_eq. tauto.
+    - apply key_eqb_eq.
+  Qed.
+
+  Lemma qle_abs_iff x eps : qle_abs x eps = true <-> (Qabs x <= eps)%Q.
+  Proof. unfold qle_abs. apply Qle_bool_iff. Qed.
+
+  Lemma check_keys_iff ks :
+    (forall k, In k krange -> HypK k) ->
+    (check_keys sp M probs lo hi ks = true <->
+     NoDup ks /\ (forall jd, In jd ks <-> (lo <= wsum jd < hi /\ admissible (wsum jd) jd))).
+  Proof.
+    intros Hh. unfold check_keys. rewrite !andb_true_iff, nodupb_NoDup, !forallb_forall. split.
+    - intros [[Hnd Hk] Hall]. split; [exact Hnd|]. intros jd. split.
+      + intros Hin. specialize (Hk jd Hin). apply andb_true_iff in Hk. destruct Hk as [Hr Ha].
+        split; [apply in_range_iff; exact Hr|apply admissibleb_iff; exact Ha].
+      + intros [Hr Ha]. apply in_krange in Hr. specialize (Hall _ Hr).
+        rewrite forallb_forall in Hall. apply memb_In. apply Hall.
+        apply keys_k_admissible; [apply Hh; exact Hr|exact Ha].
+    - intros [Hnd Hiff]. split; [split; [exact Hnd|]|].
+      + intros jd Hin. apply Hiff in Hin. destruct Hin as [Hr Ha]. apply andb_true_iff.
+        split; [apply in_range_iff; exact Hr|apply admissibleb_iff; exact Ha].
+      + intros k Hk. apply forallb_forall. intros jd Hjd. apply memb_In. apply Hiff.
+        rewrite (keys_k_wsum k jd Hjd). split; [apply in_krange; exact Hk|].
+        apply keys_k_admissible; [apply Hh; exact Hk|exact Hjd].
+  Qed.
+
+  Lemma check_mass_iff eps d :
+    check_mass fp lo hi eps d = true <->
+    (forall k, lo <= k < hi -> (Qabs (mass d k - fp k / F) <= eps)%Q).
+  Proof.
+    unfold check_mass. rewrite forallb_forall. split.
+    - intros H k Hk. apply qle_abs_iff. apply H. apply in_krange. exact Hk.
+    - intros H k Hk. apply qle_abs_iff. apply H. apply in_krange. exact Hk.
+  Qed.
+
+  Lemma check_within_iff eps d :
+    check_within sp probs fp lo hi eps d = true <->
+    (forall jd v, In (jd, v) d -> (Qabs (v - fp (wsum jd) / F * share (wsum jd) jd) <= eps)%Q).
+  Proof.
+    unfold check_within. rewrite forallb_forall. split.
+    - intros H jd v Hin. apply qle_abs_iff. apply (H (jd, v) Hin).
+    - intros H [jd v] Hin. apply qle_abs_iff. cbn [fst snd]. apply H. exact Hin.
+  Qed.
+
+  (* the checker decides the Spec (for every tolerance), on every input the code accepts *)
+  Theorem check_iff eps d :
+    (forall k, In k krange -> HypK k) ->
+    (check sp M probs fp lo hi eps d = true <-> Spec eps d).
+  Proof.
+    intros Hh. unfold check, Spec.
+    rewrite !andb_true_iff, (check_keys_iff _ Hh), check_mass_iff, check_within_iff.
+    unfold check_total. rewrite qle_abs_iff. tauto.
+  Qed.
+
+  (* the model's table passes the checker, for every tolerance >= 0 *)
+  Theorem create_check eps :
+    Hyp -> (0 <= eps)%Q -> exists d, create = Ok d /\ check sp M probs fp lo hi eps d = true.
+  Proof.
+    intros HH He. destruct (create_spec HH) as [d [Hc Hs]]. exists d. split; [exact Hc|].
+    apply check_iff; [apply HH|]. apply SpecX_Spec; assumption.
+  Qed.
+
+  Lemma Qeq_bool_false_iff x y : Qeq_bool x y = false <-> ~ (x == y)%Q.
+  Proof.
+    split; [apply Qeq_bool_neq|]. intros H. destruct (Qeq_bool x y) eqn:E; [|reflexivity].
+    apply Qeq_bool_eq in E. contradiction.
+  Qed.
+
+  Lemma hyp_ok_iff : hyp_ok sp M probs fp lo hi = true <-> Hyp.
+  Proof.
+    unfold hyp_ok, Hyp. rewrite andb_true_iff, forallb_forall, negb_true_iff, Qeq_bool_false_iff.
+    assert (Hk : forall k,
+      (if sp k then negb (Nat.eqb T 0) && negb (Qeq_bool (W k) 0) else negb (Nat.eqb M 0)) = true
+      <-> HypK k).
+    { intros k. unfold HypK. destruct (sp k).
+      - rewrite andb_true_iff, !negb_true_iff, Nat.eqb_neq, Qeq_bool_false_iff. tauto.
+      - rewrite negb_true_iff, Nat.eqb_neq. tauto. }
+    split; intros [H1 H2]; (split; [|exact H2]); intros k Hin; apply Hk; apply H1; exact Hin.
+  Qed.
 End GenP.
+
+Lemma create_spec_inv sp M probs fp lo hi d :
+  Hyp sp M probs fp lo hi -> create sp M probs fp lo hi = Ok d -> SpecX sp M probs fp lo hi d.
+Proof.
+  intros HH Hc. destruct (create_spec sp M probs fp lo hi HH) as [d' [Hc' Hs]].
+  rewrite Hc in Hc'. injection Hc' as ->. exact Hs.
+Qed.
+
+(* ================================================================== *)
+(* 6. the split-degree loader                                          *)
+(* ================================================================== *)
+
+Definition HypSplit (probs : list Q) (fp : nat -> Q) (lo hi : nat) : Prop :=
+  T probs <> 0 /\ (forall k, lo <= k < hi -> ~ (W probs k == 0)%Q) /\ ~ (F fp lo hi == 0)%Q.
+
+Lemma HypSplit_Hyp probs fp lo hi : HypSplit probs fp lo hi -> Hyp sp_split 0 probs fp lo hi.
+Proof.
+  intros (HT & HW & HF). split; [|exact HF]. intros k Hk. unfold HypK, sp_split.
+  split; [exact HT|]. apply HW. apply in_krange. exact Hk.
+Qed.
+
+Lemma split_no_exception probs fp lo hi :
+  HypSplit probs fp lo hi -> exists d, create_split probs fp lo hi = Ok d.
+Proof.
+  intros HH. destruct (create_spec _ _ _ _ _ _ (HypSplit_Hyp _ _ _ _ HH)) as [d [Hc _]].
+  exists d. exact Hc.
+Qed.
+
+Lemma split_keys probs fp lo hi d :
+  HypSplit probs fp lo hi -> create_split probs fp lo hi = Ok d ->
+  NoDup (map fst d) /\
+  (forall jd, In jd (map fst d) <-> (length jd = T probs /\ lo <= wsum jd < hi)).
+Proof.
+  intros HH Hc. destruct (create_spec_inv _ _ _ _ _ _ _ (HypSplit_Hyp _ _ _ _ HH) Hc) as (H1 & H2 & _).
+  split; [exact H1|]. intros jd. rewrite H2. unfold admissible, sp_split. tauto.
+Qed.
+
+Lemma split_mass probs fp lo hi d :
+  HypSplit probs fp lo hi -> create_split probs fp lo hi = Ok d ->
+  forall k, lo <= k < hi -> (mass d k == fp k / F fp lo hi)%Q.
+Proof.
+  intros HH Hc. destruct (create_spec_inv _ _ _ _ _ _ _ (HypSplit_Hyp _ _ _ _ HH) Hc) as (_ & _ & H3 & _).
+  exact H3.
+Qed.
+
+Lemma split_within probs fp lo hi d :
+  HypSplit probs fp lo hi -> create_split probs fp lo hi = Ok d ->
+  forall jd v, In (jd, v) d ->
+    (v == fp (wsum jd) / F fp lo hi * (weight probs jd / W probs (wsum jd)))%Q.
+Proof.
+  intros HH Hc. destruct (create_spec_inv _ _ _ _ _ _ _ (HypSplit_Hyp _ _ _ _ HH) Hc) as (_ & _ & _ & H4 & _).
+  exact H4.
+Qed.
+
+Lemma split_total probs fp lo hi d :
+  HypSplit probs fp lo hi -> create_split probs fp lo hi = Ok d -> (qsum (map snd d) == 1)%Q.
+Proof.
+  intros HH Hc. destruct (create_spec_inv _ _ _ _ _ _ _ (HypSplit_Hyp _ _ _ _ HH) Hc) as (_ & _ & _ & _ & H5).
+  exact H5.
+Qed.
+
+(* ================================================================== *)
+(* 7. the delta loader                                                 *)
+(* ================================================================== *)
+
+Definition HypDelta (target : Z) (M : nat) (probs : list Q) (fp : nat -> Q) (lo hi : nat) : Prop :=
+  (forall k, lo <= k < hi -> Z.of_nat k <> target -> M <> 0) /\
+  (forall k, lo <= k < hi -> Z.of_nat k = target -> T probs <> 0 /\ ~ (W probs k == 0)%Q) /\
+  ~ (F fp lo hi == 0)%Q.
+
+Lemma sp_delta_true target k : sp_delta target k = true <-> Z.of_nat k = target.
+Proof. unfold sp_delta. apply Z.eqb_eq. Qed.
+
+Lemma sp_delta_false target k : sp_delta target k = false <-> Z.of_nat k <> target.
+Proof. unfold sp_delta. apply Z.eqb_neq. Qed.
+
+Lemma HypDelta_Hyp target M probs fp lo hi :
+  HypDelta target M probs fp lo hi -> Hyp (sp_delta target) M probs fp lo hi.
+Proof.
+  intros (HM & HT & HF). split; [|exact HF]. intros k Hk. apply in_krange in Hk. unfold HypK.
+  destruct (sp_delta target k) eqn:E.
+  - apply HT; [exact Hk|]. apply sp_delta_true. exact E.
+  - apply (HM k); [exact Hk|]. apply sp_delta_false. exact E.
+Qed.
+
+Lemma delta_no_exception target M probs fp lo hi :
+  HypDelta target M probs fp lo hi -> exists d, create_delta target M probs fp lo hi = Ok d.
+Proof.
+  intros HH. destruct (create_spec _ _ _ _ _ _ (HypDelta_Hyp _ _ _ _ _ _ HH)) as [d [Hc _]].
+  exists d. exact Hc.
+Qed.
+
+Lemma delta_spec target M probs fp lo hi d :
+  HypDelta target M probs fp lo hi -> create_delta target M probs fp lo hi = Ok d ->
+  NoDup (map fst d) /\
+  (forall jd, In jd (map fst d) -> lo <= wsum jd < hi) /\
+  (* away from the target: the only key using k edges is (k,0,...,0), its value is fp k / F *)
+  (forall k, lo <= k < hi -> Z.of_nat k <> target ->
+     (forall jd, (In jd (map fst d) /\ wsum jd = k) <-> jd = pure_key M k) /\
+     (forall v, In (pure_key M k, v) d -> (v == fp k / F fp lo hi)%Q)) /\
+  (* at the target: all splits, each with its share *)
+  (forall k, lo <= k < hi -> Z.of_nat k = target ->
+     (forall jd, (In jd (map fst d) /\ wsum jd = k) <-> (length jd = T probs /\ wsum jd = k)) /\
+     (forall jd v, In (jd, v) d -> wsum jd = k ->
+        (v == fp k / F fp lo hi * (weight probs jd / W probs k))%Q)) /\
+  (forall k, lo <= k < hi -> (mass d k == fp k / F fp lo hi)%Q) /\
+  (qsum (map snd d) == 1)%Q.
+Proof.
+  intros HH Hc.
+  destruct (create_spec_inv _ _ _ _ _ _ _ (HypDelta_Hyp _ _ _ _ _ _ HH) Hc) as (H1 & H2 & H3 & H4 & H5).
+  split; [exact H1|]. split; [intros jd Hin; apply H2 in Hin; tauto|].
+  split; [|split; [|split; [exact H3|exact H5]]].
+  - intros k Hk Hne. apply sp_delta_false in Hne. split.
+    + intros jd. rewrite H2. unfold admissible. split.
+      * intros [[_ Ha] Hw]. rewrite Hw, Hne in Ha. exact Ha.
+      * intros ->. rewrite wsum_pure_key, Hne. tauto.
+    + intros v Hin. specialize (H4 _ _ Hin). rewrite wsum_pure_key in H4. unfold share in H4.
+      rewrite Hne in H4. rewrite H4. ring.
+  - intros k Hk He. apply sp_delta_true in He. split.
+    + intros jd. rewrite H2. unfold admissible. split.
+      * intros [[_ Ha] Hw]. rewrite Hw, He in Ha. split; [apply Ha|exact Hw].
+      * intros [Hl Hw]. rewrite Hw, He. tauto.
+    + intros jd v Hin Hw. specialize (H4 _ _ Hin). rewrite Hw in H4. unfold share in H4.
+      rewrite He in H4. exact H4.
+Qed.
+
+(* target outside the range: no split at all, whatever probs is (even no topology) *)
+Lemma dict_eq_trans a b c : dict_eq a b -> dict_eq b c -> dict_eq a c.
+Proof.
+  intros Hab. revert c. induction Hab as [|x y l1 l2 [Hk Hv] _ IH]; intros c Hbc; inversion Hbc; subst.
+  - constructor.
+  - constructor; [|apply IH; assumption].
+    match goal with H : _ /\ _ |- _ => destruct H as [Hk' Hv'] end.
+    split; [congruence|]. rewrite Hv. exact Hv'.
+Qed.
+
+Lemma pure_blocks sp M probs fp (c : Q) l :
+  (forall k, In k l -> sp k = false) ->
+  dict_eq (flat_map (fun k => map (fun kv : key * Q => (fst kv, (snd kv / c)%Q)) (raw_block sp M probs fp k)) l)
+          (map (fun k => (pure_key M k, (fp k / c)%Q)) l).
+Proof.
+  induction l as [|k l IH]; intros Hsp; [constructor|].
+  cbn [flat_map map]. unfold raw_block at 1, keys_k, share.
+  rewrite (Hsp k (or_introl eq_refl)). cbn [map app fst snd]. constructor.
+  - cbn [fst snd]. split; [reflexivity|]. unfold Qdiv. ring.
+  - apply IH. intros k' Hk'. apply Hsp. right. exact Hk'.
+Qed.
+
+Lemma delta_target_outside target M probs fp lo hi :
+  (forall k, lo <= k < hi -> Z.of_nat k <> target) -> M <> 0 -> ~ (F fp lo hi == 0)%Q ->
+  exists d, create_delta target M probs fp lo hi = Ok d /\
+            dict_eq d (map (fun k => (pure_key M k, (fp k / F fp lo hi)%Q)) (seq lo (hi - lo))).
+Proof.
+  intros Hout HM HF.
+  assert (HH : HypDelta target M probs fp lo hi).
+  { split; [intros; exact HM|]. split; [|exact HF]. intros k Hk He. exfalso. apply (Hout k Hk He). }
+  destruct (create_ok _ _ _ _ _ _ (HypDelta_Hyp _ _ _ _ _ _ HH)) as [d [Hc Heq]].
+  exists d. split; [exact Hc|]. eapply dict_eq_trans; [exact Heq|].
+  rewrite final_blocks. apply pure_blocks.
+  intros k Hk. apply sp_delta_false. apply Hout. apply in_krange. exact Hk.
+Qed.
+
+(* ================================================================== *)
+(* 8. the exception branch: the model raises exactly outside [Hyp]     *)
+(* ================================================================== *)
+
+Lemma resolve_T0 probs d k pk : T probs = 0 -> resolve probs d k pk = Err E_ZERODIV.
+Proof. destruct probs; [reflexivity|discriminate]. Qed.
+
+Lemma loop_app f a b d :
+  loop f (a ++ b) d = match loop f a d with Ok d' => loop f b d' | Err c => Err c end.
+Proof.
+  revert d. induction a as [|k a IH]; intros d; cbn [loop app]; [reflexivity|].
+  destruct (f d k); [apply IH|reflexivity].
+Qed.
+
+Lemma NoDup_app_l {A} (a b : list A) : NoDup (a ++ b) -> NoDup a.
+Proof.
+  induction a as [|x a IH]; cbn [app]; intros H; [constructor|].
+  inversion H as [|x' l' Hx Hl]; subst. constructor; [|apply IH; exact Hl].
+  intros Hin. apply Hx. apply in_app_iff. left. exact Hin.
+Qed.
+
+Lemma first_failure {A} (P : A -> Prop) (l : list A) :
+  (forall x, P x \/ ~ P x) ->
+  (forall x, In x l -> P x) \/
+  (exists pre x post, l = pre ++ x :: post /\ (forall y, In y pre -> P y) /\ ~ P x).
+Proof.
+  intros Hdec. induction l as [|a l IH].
+  - left. intros x [].
+  - destruct (Hdec a) as [Ha|Ha].
+    + destruct IH as [IH|[pre [x [post [E [Hpre Hx]]]]]].
+      * left. intros x [<-|Hx]; [exact Ha|apply IH; exact Hx].
+      * right. exists (a :: pre), x, post. split; [rewrite E; reflexivity|].
+        split; [|exact Hx]. intros y [<-|Hy]; [exact Ha|apply Hpre; exact Hy].
+    + right. exists [], a, l. split; [reflexivity|]. split; [intros y []|exact Ha].
+Qed.
+
+Section Errors.
+  Variable sp : nat -> bool.
+  Variable M : nat.
+  Variable probs : list Q.
+  Variable fp : nat -> Q.
+  Variables lo hi : nat.
+
+  Definition err_class (k : nat) : Z := if sp k then E_ZERODIV else E_INDEX.
+
+  Lemma HypK_dec k : HypK sp M probs k \/ ~ HypK sp M probs k.
+  Proof.
+    unfold HypK. destruct (sp k).
+    - destruct (Nat.eq_dec (T probs) 0) as [HT|HT]; [right; tauto|].
+      destruct (Qeq_dec (W probs k) 0) as [HW|HW]; [right; tauto|left; tauto].
+    - destruct (Nat.eq_dec M 0); [right; tauto|left; assumption].
+  Qed.
+
+  Lemma step_err d k :
+    ~ HypK sp M probs k -> step sp M probs fp d k = Err (err_class k).
+  Proof.
+    unfold HypK, step, err_class. destruct (sp k).
+    - intros Hn. destruct (Nat.eq_dec (T probs) 0) as [HT|HT]; [apply resolve_T0; exact HT|].
+      destruct (Qeq_dec (W probs k) 0) as [HW|HW]; [apply resolve_zero_W; assumption|].
+      exfalso. apply Hn. split; assumption.
+    - intros Hn. destruct M as [|M']; [reflexivity|]. exfalso. apply Hn. congruence.
+  Qed.
+
+  (* the first degree outside the hypotheses decides the exception class *)
+  Lemma create_err_first pre k0 post :
+    krange lo hi = pre ++ k0 :: post ->
+    (forall k, In k pre -> HypK sp M probs k) -> ~ HypK sp M probs k0 ->
+    create sp M probs fp lo hi = Err (err_class k0).
+  Proof.
+    intros E Hpre Hk0. unfold create. rewrite E, loop_app.
+    rewrite loop_fresh.
+    - cbn [loop app]. rewrite step_err by exact Hk0. reflexivity.
+    - pose proof (krange_NoDup lo hi) as Hnd. rewrite E in Hnd. apply NoDup_app_l in Hnd. exact Hnd.
+    - exact Hpre.
+    - intros k jd _ _ [].
+  Qed.
+
+  Lemma keys_k_inhabited k : HypK sp M probs k -> exists jd, In jd (keys_k sp M probs k).
+  Proof.
+    unfold HypK, keys_k. destruct (sp k).
+    - intros [HT _]. exists (pure_key (T probs) k). apply valid_has_pure. exact HT.
+    - intros _. exists (pure_key M k). left. reflexivity.
+  Qed.
+
+  Lemma model_blocks_keys l :
+    map fst (flat_map (model_block sp M probs fp) l) = flat_map (keys_k sp M probs) l.
+  Proof. rewrite map_flat_map'. apply flat_map_ext. intros k. apply model_block_keys. Qed.
+
+  (* all degrees fine but the degree function sums to zero: normalise_jdd divides by zero *)
+  Lemma create_err_F :
+    (forall k, In k (krange lo hi) -> HypK sp M probs k) -> lo < hi -> (F fp lo hi == 0)%Q ->
+    create sp M probs fp lo hi = Err E_ZERODIV.
+  Proof.
+    intros Hh Hlt HF. unfold create.
+    rewrite loop_fresh; [|apply krange_NoDup|exact Hh|intros k jd _ _ []].
+    cbn [app].
+    assert (Heq : dict_eq (flat_map (model_block sp M probs fp) (krange lo hi)) (raw sp M probs fp lo hi)).
+    { unfold raw. apply dict_eq_flat_map. intros k _. apply model_block_eq. }
+    assert (Hs : (rsum (map snd (flat_map (model_block sp M probs fp) (krange lo hi))) == 0)%Q).
+    { rewrite rsum_eq. rewrite (qsum_Forall2 _ _ (dict_eq_vals _ _ Heq)).
+      rewrite raw_sum by exact Hh. exact HF. }
+    unfold normalise.
+    destruct (flat_map (model_block sp M probs fp) (krange lo hi)) as [|kv mr] eqn:Em.
+    - exfalso. assert (Hlo : In lo (krange lo hi)) by (apply in_krange; lia).
+      destruct (keys_k_inhabited lo (Hh lo Hlo)) as [jd Hjd].
+      assert (Hin : In jd (flat_map (keys_k sp M probs) (krange lo hi))).
+      { apply in_flat_map. exists lo. split; assumption. }
+      rewrite <- model_blocks_keys, Em in Hin. exact Hin.
+    - apply Qeq_bool_iff in Hs. rewrite Hs. reflexivity.
+  Qed.
+
+  (* converse of create_ok: a table is returned only on the inputs of [Hyp] (or the empty range) *)
+  Theorem create_ok_only_if d :
+    create sp M probs fp lo hi = Ok d -> hi <= lo \/ Hyp sp M probs fp lo hi.
+  Proof.
+    intros Hc. destruct (le_lt_dec hi lo) as [Hle|Hlt]; [left; exact Hle|right].
+    destruct (first_failure (HypK sp M probs) (krange lo hi) HypK_dec)
+      as [Hall|[pre [k0 [post [E [Hpre Hk0]]]]]].
+    - split; [exact Hall|]. intros HF. rewrite (create_err_F Hall Hlt HF) in Hc. discriminate.
+    - rewrite (create_err_first pre k0 post E Hpre Hk0) in Hc. discriminate.
+  Qed.
+
+  Lemma create_empty_range : hi <= lo -> create sp M probs fp lo hi = Ok [].
+  Proof.
+    intros Hle. unfold create, krange. replace (hi - lo) with 0 by lia. reflexivity.
+  Qed.
+End Errors.
+
+(* the malformed stream of the split-degree loader: every failure is a ZeroDivisionError *)
+Lemma split_zero_division probs fp lo hi :
+  lo < hi ->
+  (T probs = 0 \/ (exists k, lo <= k < hi /\ (W probs k == 0)%Q) \/ (F fp lo hi == 0)%Q) ->
+  create_split probs fp lo hi = Err E_ZERODIV.
+Proof.
+  intros Hlt Hbad. unfold create_split.
+  destruct (first_failure (HypK sp_split 0 probs) (krange lo hi) (HypK_dec sp_split 0 probs fp))
+    as [Hall|[pre [k0 [post [E [Hpre Hk0]]]]]].
+  - destruct Hbad as [HT|[[k [Hk HW]]|HF]].
+    + exfalso. assert (Hlo : In lo (krange lo hi)) by (apply in_krange; lia).
+      destruct (Hall lo Hlo) as [HT' _]. contradiction.
+    + exfalso. apply in_krange in Hk. destruct (Hall k Hk) as [_ HW']. contradiction.
+    + apply create_err_F; assumption.
+  - rewrite (create_err_first sp_split 0 probs fp lo hi pre k0 post E Hpre Hk0). reflexivity.
+Qed.
+
+(* ================================================================== *)
+(* 9. boolean forms of the hypotheses; the wire-level checker          *)
+(* ================================================================== *)
+
+Lemma HypSplit_iff probs fp lo hi :
+  lo < hi -> (hyp_ok sp_split 0 probs fp lo hi = true <-> HypSplit probs fp lo hi).
+Proof.
+  intros Hlt. rewrite hyp_ok_iff. split; [|apply HypSplit_Hyp].
+  intros [Hh HF]. split; [|split; [|exact HF]].
+  - assert (Hlo : In lo (krange lo hi)) by (apply in_krange; lia). apply (Hh lo Hlo).
+  - intros k Hk. apply in_krange in Hk. apply (Hh k Hk).
+Qed.
+
+Lemma HypDelta_iff target M probs fp lo hi :
+  hyp_ok (sp_delta target) M probs fp lo hi = true <-> HypDelta target M probs fp lo hi.
+Proof.
+  rewrite hyp_ok_iff. split; [|apply HypDelta_Hyp].
+  intros [Hh HF]. split; [|split; [|exact HF]].
+  - intros k Hk Hne. apply in_krange in Hk. specialize (Hh k Hk). unfold HypK in Hh.
+    apply sp_delta_false in Hne. rewrite Hne in Hh. exact Hh.
+  - intros k Hk He. apply in_krange in Hk. specialize (Hh k Hk). unfold HypK in Hh.
+    apply sp_delta_true in He. rewrite He in Hh. exact Hh.
+Qed.
+
+(* what an answer 1 of the extracted checker means *)
+Lemma c07_check_sound t :
+  c07_check t = I 1%Z ->
+  let mode := t_z (t_nth 0 t) in
+  let probs := t_qs (t_nth 1 t) in
+  let M := t_nat (t_nth 2 t) in
+  let lo := t_nat (t_nth 3 t) in
+  let hi := t_nat (t_nth 4 t) in
+  let target := t_z (t_nth 5 t) in
+  let fp := table_fp lo (t_qs (t_nth 6 t)) in
+  let eps := t_q (t_nth 7 t) in
+  let d := dec_dict (t_nth 8 t) in
+  Hyp (mode_sp mode target) M probs fp lo hi /\
+  Spec (mode_sp mode target) M probs fp lo hi eps d.
+Proof.
+  unfold c07_check. cbv zeta.
+  destruct (hyp_ok _ _ _ _ _ _) eqn:E; [|discriminate].
+  destruct (check _ _ _ _ _ _ _ _) eqn:C; cbn [of_bool]; [|discriminate].
+  intros _. apply hyp_ok_iff in E. split; [exact E|]. apply check_iff; [apply E|exact C].
+Qed.
+
+Lemma c07_check_complete t :
+  let mode := t_z (t_nth 0 t) in
+  let probs := t_qs (t_nth 1 t) in
+  let M := t_nat (t_nth 2 t) in
+  let lo := t_nat (t_nth 3 t) in
+  let hi := t_nat (t_nth 4 t) in
+  let target := t_z (t_nth 5 t) in
+  let fp := table_fp lo (t_qs (t_nth 6 t)) in
+  let eps := t_q (t_nth 7 t) in
+  let d := dec_dict (t_nth 8 t) in
+  Hyp (mode_sp mode target) M probs fp lo hi ->
+  Spec (mode_sp mode target) M probs fp lo hi eps d ->
+  c07_check t = I 1%Z.
+Proof.
+  cbv zeta. intros HH HS. unfold c07_check. cbv zeta.
+  pose proof HH as HH'. apply hyp_ok_iff in HH'. rewrite HH'.
+  apply check_iff in HS; [|apply HH]. rewrite HS. reflexivity.
+Qed.
